@@ -30,7 +30,7 @@ LENS = [0, 1, 19, 20, 21, 24, 25, 26, 39, 40, 41, 49, 50, 51, 100]
 def cases(tier, seed):
     rnd = random.Random(seed * 15485863 + 9)
     out = []
-    n = 70 if tier == 'quick' else 900
+    n = 200 if tier == 'quick' else 900
     faults = ['none', 'dup', 'dupdelay', 'err', 'drop_driver', 'drop_sender', 'lossy']
     for i in range(n):
         out.append({'seed': seed * 1000003 + i, 'fault': faults[i % len(faults)], 'nmem': rnd.randint(1, 3),
